@@ -230,7 +230,9 @@ pub trait TaggedCborSerializable: AsCborValue {
 }
 
 /// Trivial implementation of [`AsCborValue`] for [`Value`].
-impl AsCborValue for Value {
+impl AsCborValue for Value {«
+    open spec fn dec_rel(value: Value, r: crate::Result<Self>) -> bool { r == Ok::<Value, CoseError>(value) }
+    open spec fn enc_rel(self, r: crate::Result<Value>) -> bool { r == Ok::<Value, CoseError>(self) }»
     fn from_cbor_value(value: Value) -> Result<Self> {
         Ok(value)
     }
